@@ -115,6 +115,22 @@ func runFlowCase(c *vf.Ctx, fc *flowCase) *flowResult {
 			// skeleton 14: two or three outer and middle elements, inner lengths 0..4
 			s.LenChoices, s.Len1Choices, s.MaxLen = []int{2, 3}, []int{2, 3}, 4
 		}
+		if fc.Template == 17 {
+			// skeleton 16: jagged inner lengths per outer fork, among them the
+			// one-element and the empty collection in first and in later position
+			pats := [][]int{{1, 3}, {3, 1}, {1, 0}, {0, 2}, {1, 1}, {2, 1}, {1, 2}, {0, 1}}
+			half := int(uint64(fc.Seed) % 2)
+			for k := 0; k < 4; k++ {
+				for f, n := range pats[4*half+k] {
+					s.Rules = append(s.Rules, pgen.Rule{JobPrefix: fmt.Sprintf("TOP/MIDL%d/GENI/fork%d/", k, f), Len: 1 + n})
+				}
+			}
+			pat3 := append(append([]int{}, pats[int(uint64(fc.Seed/2)%8)]...), pats[int(uint64(fc.Seed/16)%8)][0])
+			s.Rules = append(s.Rules, pgen.Rule{JobPrefix: "TOP/SRC/", Len: 1 + 2 + int(uint64(fc.Seed/128)%2)})
+			for k, n := range pat3 {
+				s.Rules = append(s.Rules, pgen.Rule{JobPrefix: fmt.Sprintf("TOP/MID/GENI/fork%d/", k), Len: 1 + n})
+			}
+		}
 		if fc.Template == 13 && len(s.LenChoices) == 0 {
 			s.LenChoices = []int{3} // skeleton 12: three run-time elements
 		}
